@@ -238,6 +238,18 @@ func (P *Program) BuildModel() (*Model, error) {
 	for _, rs := range M.Sites {
 		par, isPar := rs.CodeVal.(*ssa.Parameter)
 		if rs.Code != "" || !isPar || par.Parent() != rs.Fn {
+			// a site in a function with several call sites is analysed once per call site: analogous but
+			// textually different guards of the callers (different node kinds, different index arguments)
+			// would otherwise be lost in an intersection
+			if cs := P.Callers(rs.Fn); len(cs) >= 2 && len(cs) <= 6 {
+				for _, c1 := range cs {
+					cp := *rs
+					cp.Via = c1
+					c2 := cp
+					expanded = append(expanded, &c2)
+				}
+				continue
+			}
 			expanded = append(expanded, rs)
 			continue
 		}
